@@ -63,6 +63,42 @@ static bool collect_token = true;
 static struct work_blk *unfinished_work;
 
 
+#ifdef KJN_LBZIP2_VERIF
+/* Verification hook H3: state dump and queue capacity assertions. */
+#include <stdio.h>
+static unsigned verif_cap_coll, verif_cap_trans, verif_cap_reord;
+void
+compress_verif_dump(FILE *fp)
+{
+  unsigned i;
+
+  if (size(coll_q) > verif_cap_coll || size(trans_q) > verif_cap_trans ||
+      size(reord_q) > verif_cap_reord || work_units > num_worker ||
+      out_slots > total_out_slots)
+    abort();
+  if (fp == NULL)
+    return;
+  fprintf(fp, "C coll=");
+  for (i = 0; i < size(coll_q); i++)
+    fprintf(fp, "%s%ju.%ju/%zu", i ? "," : "", (uintmax_t)coll_q.root[i]->pos.major,
+            (uintmax_t)coll_q.root[i]->pos.minor, coll_q.root[i]->left);
+  fprintf(fp, " trans=");
+  for (i = 0; i < size(trans_q); i++)
+    fprintf(fp, "%s%ju.%ju>%ju.%ju", i ? "," : "",
+            (uintmax_t)trans_q.root[i]->pos.major, (uintmax_t)trans_q.root[i]->pos.minor,
+            (uintmax_t)trans_q.root[i]->next.major, (uintmax_t)trans_q.root[i]->next.minor);
+  fprintf(fp, " reord=");
+  for (i = 0; i < size(reord_q); i++)
+    fprintf(fp, "%s%ju.%ju>%ju.%ju", i ? "," : "",
+            (uintmax_t)reord_q.root[i]->pos.major, (uintmax_t)reord_q.root[i]->pos.minor,
+            (uintmax_t)reord_q.root[i]->next.major, (uintmax_t)reord_q.root[i]->next.minor);
+  fprintf(fp, " order=%ju.%ju nid=%ju tok=%d unf=%d ultra=%d caps=%u,%u,%u",
+          (uintmax_t)order.major, (uintmax_t)order.minor, next_id,
+          (int)collect_token, unfinished_work != NULL, (int)ultra,
+          verif_cap_coll, verif_cap_trans, verif_cap_reord);
+}
+#endif
+
 static bool
 can_collect(void)
 {
@@ -327,6 +363,11 @@ init(void)
   pqueue_init(coll_q, in_slots);
   pqueue_init(trans_q, work_units);
   pqueue_init(reord_q, out_slots);
+#ifdef KJN_LBZIP2_VERIF
+  verif_cap_coll = in_slots;
+  verif_cap_trans = work_units;
+  verif_cap_reord = out_slots;
+#endif
 
   next_id = 0;
   order.major = 0;
